@@ -94,6 +94,7 @@ pub enum Error {
     UnsupportedOperParameterValue { operation_name: &'static str, param_name: &'static str, param_value: &'static str, required_capabilities: Requirements },
     UnsupportedOperationParameter { operation_name: &'static str, param_name: &'static str, required_capabilities: Requirements },
     IncompatibleOperationParameters { operation_name: &'static str, parameters: Vec<&'static str> },
+    UnsupportedOperation { operation_name: &'static str, required_capabilities: Requirements },
     Other,
 }
 
@@ -465,6 +466,78 @@ impl<'a, D> Builder<'a, D> {
                 res matches Ok(b) ==> b.test_option == test_option && b.target == self.target && b.error_option == self.error_option,   // OBL:C09.edit_config.test_option_is_recorded
 //@end
 }
+}
+
+// ---------- operation-level requirements ----------
+// RFC 6241: <commit> / <discard-changes> exist only with :candidate (8.3.4); <cancel-commit> only with :confirmed-commit:1.1
+// (8.4.4.1); <validate> only with :validate (8.6.4); everything else of section 7 is part of the base protocol. The Junos
+// operations need the Junos XML management protocol capability. (Written from the RFC, not from the code.)
+pub enum OpKind { Get, GetConfig, EditConfig, CopyConfig, DeleteConfig, Lock, Unlock, CloseSession, KillSession, Commit, DiscardChanges,
+                  CancelCommit, Validate, JunosOpenConfiguration, JunosLoadConfiguration, JunosCommitConfiguration }
+pub open spec fn op_permitted(op: OpKind, caps: Set<Capability>) -> bool {
+    match op {
+        OpKind::Commit | OpKind::DiscardChanges => has(caps, Capability::Candidate),
+        OpKind::CancelCommit => has(caps, Capability::ConfirmedCommitV1_1),
+        OpKind::Validate => has(caps, Capability::ValidateV1_0) || has(caps, Capability::ValidateV1_1),
+        OpKind::JunosOpenConfiguration | OpKind::JunosLoadConfiguration | OpKind::JunosCommitConfiguration => has(caps, Capability::JunosXmlManagementProtocol),
+        _ => true,
+    }
+}
+pub mod required {
+use super::*;
+//@assoc file=netconf/src/message/rpc/operation/commit.rs impl=/impl(<\w+>)? Operation for Commit/ kind=const name=REQUIRED_CAPABILITIES as=commit_required id=commit_required
+//@+ ensures=/forall|caps: Set<Capability>| #[trigger] req_sat(res, caps) <==> op_permitted(OpKind::Commit, caps)/ label=C09.operation.commit_requirement
+//@assoc file=netconf/src/message/rpc/operation/discard_changes.rs impl=/impl(<\w+>)? Operation for DiscardChanges/ kind=const name=REQUIRED_CAPABILITIES as=discard_changes_required id=discard_changes_required
+//@+ ensures=/forall|caps: Set<Capability>| #[trigger] req_sat(res, caps) <==> op_permitted(OpKind::DiscardChanges, caps)/ label=C09.operation.discard_changes_requirement
+//@assoc file=netconf/src/message/rpc/operation/cancel_commit.rs impl=/impl(<\w+>)? Operation for CancelCommit/ kind=const name=REQUIRED_CAPABILITIES as=cancel_commit_required id=cancel_commit_required
+//@+ ensures=/forall|caps: Set<Capability>| #[trigger] req_sat(res, caps) <==> op_permitted(OpKind::CancelCommit, caps)/ label=C09.operation.cancel_commit_requirement
+//@assoc file=netconf/src/message/rpc/operation/validate.rs impl=/impl(<\w+>)? Operation for Validate/ kind=const name=REQUIRED_CAPABILITIES as=validate_required id=validate_required
+//@+ ensures=/forall|caps: Set<Capability>| #[trigger] req_sat(res, caps) <==> op_permitted(OpKind::Validate, caps)/ label=C09.operation.validate_requirement
+//@assoc file=netconf/src/message/rpc/operation/get.rs impl=/impl(<\w+>)? Operation for Get/ kind=const name=REQUIRED_CAPABILITIES as=get_required id=get_required
+//@+ ensures=/forall|caps: Set<Capability>| #[trigger] req_sat(res, caps) <==> op_permitted(OpKind::Get, caps)/ label=C09.operation.get_requirement
+//@assoc file=netconf/src/message/rpc/operation/get_config.rs impl=/impl(<\w+>)? Operation for GetConfig<D>/ kind=const name=REQUIRED_CAPABILITIES as=get_config_required id=get_config_required
+//@+ ensures=/forall|caps: Set<Capability>| #[trigger] req_sat(res, caps) <==> op_permitted(OpKind::GetConfig, caps)/ label=C09.operation.get_config_requirement
+//@assoc file=netconf/src/message/rpc/operation/edit_config.rs impl=/impl(<\w+>)? Operation for EditConfig<D>/ kind=const name=REQUIRED_CAPABILITIES as=edit_config_required id=edit_config_required
+//@+ ensures=/forall|caps: Set<Capability>| #[trigger] req_sat(res, caps) <==> op_permitted(OpKind::EditConfig, caps)/ label=C09.operation.edit_config_requirement
+//@assoc file=netconf/src/message/rpc/operation/copy_config.rs impl=/impl(<\w+>)? Operation for CopyConfig/ kind=const name=REQUIRED_CAPABILITIES as=copy_config_required id=copy_config_required
+//@+ ensures=/forall|caps: Set<Capability>| #[trigger] req_sat(res, caps) <==> op_permitted(OpKind::CopyConfig, caps)/ label=C09.operation.copy_config_requirement
+//@assoc file=netconf/src/message/rpc/operation/delete_config.rs impl=/impl(<\w+>)? Operation for DeleteConfig/ kind=const name=REQUIRED_CAPABILITIES as=delete_config_required id=delete_config_required
+//@+ ensures=/forall|caps: Set<Capability>| #[trigger] req_sat(res, caps) <==> op_permitted(OpKind::DeleteConfig, caps)/ label=C09.operation.delete_config_requirement
+//@assoc file=netconf/src/message/rpc/operation/lock.rs impl=/impl(<\w+>)? Operation for Lock/ kind=const name=REQUIRED_CAPABILITIES as=lock_required id=lock_required
+//@+ ensures=/forall|caps: Set<Capability>| #[trigger] req_sat(res, caps) <==> op_permitted(OpKind::Lock, caps)/ label=C09.operation.lock_requirement
+//@assoc file=netconf/src/message/rpc/operation/lock.rs impl=/impl(<\w+>)? Operation for Unlock/ kind=const name=REQUIRED_CAPABILITIES as=unlock_required id=unlock_required
+//@+ ensures=/forall|caps: Set<Capability>| #[trigger] req_sat(res, caps) <==> op_permitted(OpKind::Unlock, caps)/ label=C09.operation.unlock_requirement
+//@assoc file=netconf/src/message/rpc/operation/close_session.rs impl=/impl(<\w+>)? Operation for CloseSession/ kind=const name=REQUIRED_CAPABILITIES as=close_session_required id=close_session_required
+//@+ ensures=/forall|caps: Set<Capability>| #[trigger] req_sat(res, caps) <==> op_permitted(OpKind::CloseSession, caps)/ label=C09.operation.close_session_requirement
+//@assoc file=netconf/src/message/rpc/operation/kill_session.rs impl=/impl(<\w+>)? Operation for KillSession/ kind=const name=REQUIRED_CAPABILITIES as=kill_session_required id=kill_session_required
+//@+ ensures=/forall|caps: Set<Capability>| #[trigger] req_sat(res, caps) <==> op_permitted(OpKind::KillSession, caps)/ label=C09.operation.kill_session_requirement
+//@assoc file=netconf/src/message/rpc/operation/junos/open_configuration.rs impl=/impl(<\w+>)? Operation for OpenConfiguration/ kind=const name=REQUIRED_CAPABILITIES as=junos_open_configuration_required id=junos_open_configuration_required
+//@+ ensures=/forall|caps: Set<Capability>| #[trigger] req_sat(res, caps) <==> op_permitted(OpKind::JunosOpenConfiguration, caps)/ label=C09.operation.junos_open_configuration_requirement
+//@assoc file=netconf/src/message/rpc/operation/junos/load_configuration.rs impl=/impl(<\w+>)? Operation for LoadConfiguration<S>/ kind=const name=REQUIRED_CAPABILITIES as=junos_load_configuration_required id=junos_load_configuration_required
+//@+ ensures=/forall|caps: Set<Capability>| #[trigger] req_sat(res, caps) <==> op_permitted(OpKind::JunosLoadConfiguration, caps)/ label=C09.operation.junos_load_configuration_requirement
+//@assoc file=netconf/src/message/rpc/operation/junos/commit_configuration.rs impl=/impl(<\w+>)? Operation for CommitConfiguration/ kind=const name=REQUIRED_CAPABILITIES as=junos_commit_configuration_required id=junos_commit_configuration_required
+//@+ ensures=/forall|caps: Set<Capability>| #[trigger] req_sat(res, caps) <==> op_permitted(OpKind::JunosCommitConfiguration, caps)/ label=C09.operation.junos_commit_configuration_requirement
+}
+
+// Operation::new - the gate every request passes before its builder runs (trait default method; the associated items it uses
+// are restated as trait functions: REQUIRED_CAPABILITIES -> required_capabilities(), NAME -> name(), and
+// `Self::Builder::new(ctx).build(build_fn)` -> build_with(ctx, build_fn), all three logged as substitutions)
+pub trait Operation: Sized {
+    spec fn spec_required() -> Requirements;
+    spec fn spec_build(ctx: Context) -> Result<Self, Error>;
+    fn required_capabilities() -> (r: Requirements) ensures r == Self::spec_required();
+    fn name() -> (r: &'static str);
+    fn build_with<F>(ctx: &Context, build_fn: F) -> (r: Result<Self, Error>) ensures r == Self::spec_build(*ctx);
+//@extract id=operation_new file=netconf/src/message/rpc/operation/mod.rs fn=new rules=R1,R7 r7map=result
+//@+ sub=/Self::REQUIRED_CAPABILITIES=>Self::required_capabilities();;Self::NAME=>Self::name();;Self::Builder::new(ctx).build(build_fn)=>Self::build_with(ctx, build_fn)/
+//@sig fn new<F>(ctx: &Context, build_fn: F) -> (res: Result<Self, Error>)
+//@contract
+        ensures
+            // nothing is built (hence nothing sent) for an operation the advertised capabilities do not permit ...
+            res is Ok ==> req_sat(Self::spec_required(), ctx.server_capabilities.set@),           // OBL:C09.operation.built_only_if_permitted
+            // ... and a permitted operation is handed to its builder, whose result is returned unchanged
+            req_sat(Self::spec_required(), ctx.server_capabilities.set@) ==> res == Self::spec_build(*ctx),   // OBL:C09.operation.permitted_operation_is_built
+//@end
 }
 
 } // mod operation
